@@ -129,11 +129,7 @@ Theorem C02_fold_single_overflow_refuted :
 Proof. exact fold_single_overflow_refuted. Qed.
 Print Assumptions C02_fold_single_overflow_refuted.
 
-Theorem C02_fold_intdiv_float_refuted :
-  fold (CBin OIntdiv (CNum 1 (PInt 7)) (CNum 3 (PFlt f_2_5))) = Folded 3 (PFlt (of_Z 2)) /\
-  rt_eval (CBin OIntdiv (CNum 1 (PInt 7)) (CNum 3 (PFlt f_2_5))) = RVal (CL 3).
-Proof. exact fold_intdiv_float_refuted. Qed.
-Print Assumptions C02_fold_intdiv_float_refuted.
+(* C02_fold_intdiv_float_refuted was removed: `\` with a float operand is typed integral since the fix commit (D46) *)
 
 Theorem C02_fold_exp_negative_refuted :
   fold (CBin OExp (CNum 1 (PInt 2)) (CNum 1 (PInt (-1)))) = CompilerCrash KType /\
